@@ -19,6 +19,7 @@ type cmdReport struct {
 	Other     string   `json:"other"`
 	Perturbed []string `json:"perturbed"`
 	Steps     int64    `json:"steps"`
+	Unstable  bool     `json:"canonical_unstable"`
 }
 
 // runCmdTier drives the real Config.run of cmd/gomacro.go (instrumented with
@@ -92,7 +93,11 @@ func runCmdTier(env *kernel.Env, scr string, progs []progRef) (map[string]any, [
 		total += r.rep.Schedules
 		steps += r.rep.Steps
 		if r.rep.Distinct > 1 {
-			v := kernel.Violation{Property: "C07", Clause: "command_outputs_depend_on_schedule", Signature: "cmd.Config.run",
+			clause, note := "command_outputs_depend_on_schedule", "deterministic: the schedule is a pure function of seed and schedule number"
+			if r.rep.Unstable {
+				clause, note = "command_outputs_differ_between_loads", "the canonical schedule did not reproduce itself: the difference comes from go/packages' parser goroutines (token positions), which the simulator does not schedule; replay is probabilistic"
+			}
+			v := kernel.Violation{Property: "C07", Clause: clause, Signature: "cmd.Config.run",
 				Detail: fmt.Sprintf("program %s/%s: the output tree of the real Config.run under schedule %d differs from the canonical schedule\nperturbed decisions: %v\n--- canonical\n%s\n--- schedule %d\n%s",
 					r.ref.Kind, r.ref.Name, r.rep.FirstBad, r.rep.Perturbed, r.rep.Canonical, r.rep.FirstBad, r.rep.Other)}
 			path := filepath.Join(env.VerifDir, "evidence", "replays", fmt.Sprintf("C07-cmd-%s.json", r.ref.Name))
@@ -101,7 +106,7 @@ func runCmdTier(env *kernel.Env, scr string, progs []progRef) (map[string]any, [
 			}
 			os.MkdirAll(filepath.Dir(path), 0o755)
 			b, _ := json.MarshalIndent(map[string]any{"violation": v, "program": r.ref, "files": progFiles(env, r.ref), "seed": env.Seed, "schedule": r.rep.FirstBad,
-				"command": fmt.Sprintf("c07cmd <workdir> %d %d %d <files>  (deterministic: the schedule is a pure function of seed and schedule number)", nsched, env.Seed, r.rep.FirstBad)}, "", " ")
+				"command": fmt.Sprintf("c07cmd <workdir> %d %d %d <files>", nsched, env.Seed, r.rep.FirstBad), "note": note}, "", " ")
 			os.WriteFile(path, b, 0o644)
 			found = append(found, kernel.Found{V: v, File: path, Case: kernel.Case{Index: 1<<30 + 3}})
 		}
